@@ -94,7 +94,9 @@ func ruleR1(c *an.Ctx) {
 		// from CompleteFile only where _errors was written (checked next), so that edge is a barrier too.
 		completeFile := p.Const(pkgCore, "CompleteFile")
 		w2 := an.Query{Fn: complete, Target: func(x ssa.Instruction) bool { return x == in },
-			Barrier: func(x ssa.Instruction) bool { return mayWriteFile(p, x, "CompleteFile") || mayWriteFile(p, x, "Errors") },
+			Barrier: func(x ssa.Instruction) bool {
+				return mayWriteFile(p, x, "CompleteFile") || mayWriteFile(p, x, "Errors")
+			},
 			BarrierEdge: func(from, to *ssa.BasicBlock) bool {
 				cnd, t, ok := an.EdgeCond(from, to)
 				if !ok {
